@@ -1,7 +1,7 @@
 (* C14 — Whitespace, comments and IndentByParentheses never change meaning.
    Statements about `lex`, the model of parser.lex (compared with VerifLex on every run). Proofs: LexProofs.v.
-   PARTIAL: layout invariance of the lexer is proved (white-space separators; comments are tokens the parser
-   drops); that IndentByParentheses preserves the tokens is NOT proved - the model of the formatter is compared
+   PARTIAL: layout invariance of the lexer is proved (white-space separators, comments anywhere between tokens);
+   that IndentByParentheses preserves the tokens is NOT proved - the model of the formatter is compared
    with Go's on every string, and Go's tokens before/after formatting (once and twice) are compared directly. *)
 Require Import Base Opcode Tables Ops Tree Opt Flat Run Directives Lexer Print LexProofs.
 Open Scope Z_scope.
@@ -21,6 +21,15 @@ Theorem C14_layout_invariance : forall is_letter is_number infix items1 items2,
   map fst items1 = map fst items2 ->
   lex is_letter is_number infix (render items1) = lex is_letter is_number infix (render items2).
 Proof. exact layout_invariance. Qed.
+
+(* comments never change meaning: two layouts whose tokens agree once the comments are dropped — comments anywhere
+   between tokens, each running to its line break or to the end of the input — give the parser the same tokens *)
+Theorem C14_comments_invariance : forall is_letter is_number infix items1 items2,
+  wf_items is_letter is_number infix items1 -> wf_items is_letter is_number infix items2 ->
+  drop_comments (map fst items1) = drop_comments (map fst items2) ->
+  option_map drop_comments (lex is_letter is_number infix (render items1)) =
+  option_map drop_comments (lex is_letter is_number infix (render items2)).
+Proof. exact layout_invariance_comments. Qed.
 
 (* a comment is one token reaching to the end of its line, whatever it contains *)
 Theorem C14_comment_token : forall text s, ~ In 10%N text ->
@@ -58,3 +67,4 @@ Proof. vm_compute. repeat split. Qed.
 
 Print Assumptions C14_lex_render.
 Print Assumptions C14_layout_invariance.
+Print Assumptions C14_comments_invariance.
